@@ -71,11 +71,25 @@ Definition dec_op (x : sx) : option op :=
   | _ => None
   end.
 
+(* ( retargetdir l k ): the DIRECTORY l becomes a symbolic link to directory k.  For stat, canonicalize and
+   exec a path through a linked directory is the same as a same-named link in it for every file name, so the
+   op is the three retargets (l, n) -> (k, n); the generators never create files through a linked directory. *)
+Definition dec_ops1 (x : sx) : option (list op) :=
+  match x with
+  | SL [t; l; k] =>
+      if is_sym "retargetdir" t
+      then Some [Retarget (norm_d (get_N l), 0) (norm_d (get_N k), 0);
+                 Retarget (norm_d (get_N l), 1) (norm_d (get_N k), 1);
+                 Retarget (norm_d (get_N l), 2) (norm_d (get_N k), 2)]
+      else match dec_op x with Some o => Some [o] | None => None end
+  | _ => match dec_op x with Some o => Some [o] | None => None end
+  end.
+
 Fixpoint dec_ops (l : list sx) : option (list op) :=
   match l with
   | [] => Some []
-  | x :: r => match dec_op x, dec_ops r with
-              | Some o, Some os => Some (o :: os)
+  | x :: r => match dec_ops1 x, dec_ops r with
+              | Some o, Some os => Some (o ++ os)
               | _, _ => None
               end
   end.
@@ -117,7 +131,7 @@ Definition run_c12 (v : variant) (x : sx) : sx :=
   end.
 
 (* ---------- the rustc world: case = ( op ... ), op = ( default t ) | ( install t b m ) | ( req src )
-   | ( reqd t src );  result = one ( outcome producer ( build mtime ) used ) per request ---------- *)
+   | ( reqd t src ) | ( holdbegin t src ) | ( holdend );  result = one ( outcome producer ( build mtime ) used ) per request ---------- *)
 Definition identR (b : N) : N := 1000 + b.
 
 Definition dec_rop (x : sx) : option rop :=
@@ -126,8 +140,11 @@ Definition dec_rop (x : sx) : option rop :=
       if is_sym "default" t then Some (RDefault (get_N a))
       else if is_sym "req" t then Some (RReq (get_N a))
       else None
+  | SL [t] => if is_sym "holdend" t then Some RHoldEnd else None
   | SL [t; a; b] =>
-      if is_sym "reqd" t then Some (RReqDirect (get_N a) (get_N b)) else None
+      if is_sym "reqd" t then Some (RReqDirect (get_N a) (get_N b))
+      else if is_sym "holdbegin" t then Some (RHoldBegin (get_N a) (get_N b))
+      else None
   | SL [t; a; b; c] =>
       if is_sym "install" t then Some (RInstall (get_N a) (get_N b) (get_N c)) else None
   | _ => None
@@ -145,17 +162,18 @@ Fixpoint dec_rops (l : list sx) : option (list rop) :=
 Definition enc_revent (e : revent) : sx :=
   let '(o, prod) := match v_out e with
                     | RUnsupported => (sym "unsupported", 0)
+                    | RPending => (sym "pending", 0)
                     | RHit p => (sym "hit", p)
                     | RMiss p => (sym "miss", p)
                     end in
   SL [o; SN prod; match v_cur e with Some (b, m) => SL [SN b; SN m] | None => SL [] end;
       match v_used e with Some u => SL [SN u] | None => SL [] end].
 
-Definition run_rust (memo : bool) (x : sx) : sx :=
+Definition run_rust (memo join : bool) (x : sx) : sx :=
   match x with
   | SL ops =>
       match dec_rops ops with
-      | Some os => SL (map enc_revent (rexec identR H0 memo rstart os))
+      | Some os => SL (map enc_revent (rexec identR H0 memo join rstart os))
       | None => err "bad op"
       end
   | _ => err "bad case"
@@ -168,6 +186,7 @@ Definition dispatch (leg : list N) (x : sx) : sx :=
   else if bytes_eqb leg (bs "asfound") then run_c12 VAsFound x
   else if bytes_eqb leg (bs "legacy") then run_c12 VLegacy x
   else if bytes_eqb leg (bs "earlylate") then run_c12 VEarlyLate x
-  else if bytes_eqb leg (bs "rustworld") then run_rust false x
-  else if bytes_eqb leg (bs "rustmemo") then run_rust true x
+  else if bytes_eqb leg (bs "rustworld") then run_rust false false x
+  else if bytes_eqb leg (bs "rustmemo") then run_rust true false x
+  else if bytes_eqb leg (bs "rustjoin") then run_rust false true x
   else err "unknown leg".
